@@ -10,3 +10,64 @@ Theorem C07_fanout_total :
     length (fst (fanout m ds)) = length ds.
 Proof. exact fanout_length. Qed.
 Print Assumptions C07_fanout_total.
+
+(* ---- bounded report path, application view (Proofs/OutputProofs.v, Proofs/OutputView.v) ---- *)
+Require Import Eliot.Model.Prog Eliot.Proofs.OutputProofs Eliot.Proofs.OutputView.
+
+(* one send calls each destination at least once and at most 1 + #destinations times,
+   however many of them are permanently broken *)
+Theorem C07_report_path_bounded :
+  forall c s m i d d',
+  any_added s = true ->
+  nth_error (dests s) i = Some d -> nth_error (dests (send c s m)) i = Some d' ->
+  d_id d' = d_id d /\ d_calls d < d_calls d' <= d_calls d + 1 + length (dests s).
+Proof. exact OutputProofs.C07_report_path_bounded. Qed.
+Print Assumptions C07_report_path_bounded.
+
+(* what the application can observe of the logging state evolves by vapi, a function in
+   which destinations, global fields, serializers, extractors, field values and the
+   configuration do not occur *)
+Theorem C07_api_view :
+  forall cfg c s o, view_of (api cfg c s o) = vapi c (view_of s) o.
+Proof. exact api_view. Qed.
+Print Assumptions C07_api_view.
+
+Theorem C07_app_state_fault_independent :
+  forall cfg1 cfg2 ops s1 s2,
+  view_of s1 = view_of s2 ->
+  ctx (run cfg1 ops s1) = ctx (run cfg2 ops s2) /\
+  tokens (run cfg1 ops s1) = tokens (run cfg2 ops s2) /\
+  probes (run cfg1 ops s1) = probes (run cfg2 ops s2) /\
+  view_of (run cfg1 ops s1) = view_of (run cfg2 ops s2).
+Proof. exact OutputView.C07_app_state_fault_independent. Qed.
+Print Assumptions C07_app_state_fault_independent.
+
+Theorem C07_destinations_irrelevant :
+  forall cfg1 cfg2 ops s aa b ds gn g,
+  ctx (run cfg1 ops s) = ctx (run cfg2 ops (with_out s aa b ds gn g)) /\
+  tokens (run cfg1 ops s) = tokens (run cfg2 ops (with_out s aa b ds gn g)) /\
+  probes (run cfg1 ops s) = probes (run cfg2 ops (with_out s aa b ds gn g)).
+Proof. exact OutputView.C07_destinations_irrelevant. Qed.
+Print Assumptions C07_destinations_irrelevant.
+
+(* the exception leaving a program is fixed by the program text alone *)
+Theorem C07_outcome_static :
+  forall cfg pre p, snd (run_prog cfg pre p) = snd (compile 0 p).
+Proof. exact OutputView.C07_outcome_static. Qed.
+Print Assumptions C07_outcome_static.
+
+(* finish marks the action finished and writes exactly one end message; again: nothing *)
+Theorem C07_finish_marks_and_writes_once :
+  forall cfg c s h a exc,
+  alookup h (heap s) = Some a -> a_finished a = false ->
+  (exists s2 m,
+     finish cfg c s h exc =
+       logger_write cfg c s2 m
+         (opt_ser (a_sers a) (match exc with None => s_success | Some _ => s_failure end)) /\
+     fget K_status m = Some (VStatus (match exc with None => Succeeded | Some _ => Failed end)) /\
+     fget K_atype m = Some (a_type a) /\ fget K_uuid m = Some (VUuid (a_uuid a))) /\
+  (exists a', alookup h (heap (finish cfg c s h exc)) = Some a' /\ a_finished a' = true /\
+              a_token a' = a_token a) /\
+  (forall c' exc', finish cfg c' (finish cfg c s h exc) h exc' = finish cfg c s h exc).
+Proof. exact finish_marks_and_writes_once. Qed.
+Print Assumptions C07_finish_marks_and_writes_once.
